@@ -26,9 +26,10 @@ MODELLED = {
     "wav": ("riff", "(FRiff false)"), "webp": ("riff", "(FRiff false)"), "audio/wav": ("riff", "(FRiff false)"),
     "image/webp": ("riff", "(FRiff false)"),
     "avi": ("riff", "(FRiff true)"), "video/avi": ("riff", "(FRiff true)"),
-    "video/msvideo": ("riff", "(FRiff false)"), "video/x-msvideo": ("riff", "(FRiff false)"),
-    "application/x-troff-msvideo": ("riff", "(FRiff false)"),
+    "video/msvideo": ("riff", "(FRiff true)"), "video/x-msvideo": ("riff", "(FRiff true)"),
+    "application/x-troff-msvideo": ("riff", "(FRiff true)"),
 }
+AVI_TYPES = ["avi", "video/avi", "video/msvideo", "video/x-msvideo", "application/x-troff-msvideo"]
 FAMILY = {"mp4": "bmff", "heic": "bmff", "heif": "bmff", "avif": "bmff", "m4a": "bmff", "mov": "bmff",
           "tiff": "tiff", "tif": "tiff", "dng": "tiff", "svg": "svg", "mp3": "mp3", "flac": "flac", "jxl": "jxl"}
 
@@ -154,6 +155,7 @@ def build_jpeg(rng=None, variant="plain"):
             "existing_late": [app0, dqt, jpeg_app11(store(70, 4)), sof, dht],
             "foreign": [app0, jpeg_app11(foreign_jumbf(50), en=b"\x00\x07"), dqt, sof, dht],
             "foreign_same_en": [app0, dqt, jpeg_app11(foreign_jumbf(50), en=b"\x02\x11"), sof, dht],
+            "foreign_same_en_multi": [app0, dqt, jpeg_app11(foreign_jumbf(120), en=b"\x02\x11", max_chunk=50), sof, dht],
             "short_app11": [app0, jseg(0xEB, b"0123456789abcdefghij"), dqt, sof, dht],
             "tiny_app11": [app0, jseg(0xEB, b"0123456789"), dqt, sof, dht],
             "fill": [app0, b"\xff\xff" + dqt, b"\x00\x01" + sof, dht],
@@ -586,8 +588,10 @@ def jpeg_flags(d):
     segs = m["media"][0]
     standalone = any(body is None and mk != 0xd9 for mk, body in segs)
     clash = any(mk == 0xeb and body is not None and len(body) > 16 and body[2:4] == b"\x02\x11" for mk, body in segs)
+    clash_multi = any(mk == 0xeb and body is not None and len(body) > 16 and body[2:4] == b"\x02\x11"
+                      and int.from_bytes(body[4:8], "big") >= 2 for mk, body in segs)
     short = any(mk == 0xeb and body is not None and 16 < len(body) < 28 for mk, body in segs)
-    return {"jpeg_standalone_marker": standalone, "jpeg_en_clash": clash, "jpeg_short_app11": short, "jpeg_fill": m["fill"] > 0}
+    return {"jpeg_standalone_marker": standalone, "jpeg_en_clash": clash, "jpeg_en_clash_multi": clash_multi, "jpeg_short_app11": short, "jpeg_fill": m["fill"] > 0}
 
 
 def bmff_chunk_offsets(d):
@@ -836,14 +840,17 @@ def facts(ctx):
     r = common.strip_tests(common.src("sdk/src/asset_handlers/riff_io.rs"))
     rid = [int(x, 16) for x in re.findall(r"0x([0-9a-fA-F]{2})", common.fact(r"const\s+C2PA_CHUNK_ID\s*:\s*ChunkId\s*=\s*ChunkId\s*\{\s*value:\s*\[([^\]]+)\]", r, "C2PA_CHUNK_ID").group(1))]
     inj = common.fn_body(r, r"fn\s+inject_c2pa\s*<", "inject_c2pa")
-    keeps_on_empty = bool(re.search(r"if\s+is_riff_chunk\s*&&\s*!data\.is_empty\(\)\s*\{\s*(//[^\n]*\n\s*)*children\.retain", inj))
+    if not re.search(r"if\s+is_riff_chunk\s*&&\s*\(strip_c2pa\s*\|\|\s*!data\.is_empty\(\)\)\s*\{\s*(//[^\n]*\n\s*)*children\.retain", inj):
+        raise TieBroken("srcfacts: riff_io.rs inject_c2pa no longer strips the C2PA chunk on (strip_c2pa || !data.is_empty())")
     rm = common.fn_body(r, r"fn\s+remove_cai_store_from_stream\s*\(", "RIFF remove_cai_store_from_stream")
-    rm_is_empty_write = bool(re.search(r"self\.write_cai\(input_stream,\s*output_stream,\s*&\[\]\)", rm))
-    if not (keeps_on_empty and rm_is_empty_write):
-        raise TieBroken("srcfacts: riff_io.rs remove/inject_c2pa changed shape (model ContRiff.v transcribes 'remove = write with an empty store, which keeps the C2PA chunk')")
-    avi_lits = re.findall(r'self\.riff_format\s*==\s*"([^"]+)"', common.fn_body(r, r"fn\s+write_cai\s*\(", "RIFF write_cai"))
-    if sorted(avi_lits) != ["avi", "video/avi"]:
+    if not re.search(r"self\.write_cai_impl\(input_stream,\s*output_stream,\s*&\[\],\s*true\)", rm):
+        raise TieBroken("srcfacts: riff_io.rs remove_cai_store_from_stream is no longer write_cai_impl(.., &[], true)")
+    wi = common.fn_body(r, r"fn\s+write_cai_impl\s*\(", "RIFF write_cai_impl")
+    avi_lits = re.findall(r'"([a-z/\-]+)"', common.fact(r"if\s+matches!\(\s*self\.riff_format\.as_str\(\),([^)]*)\)", wi, "AVIX copy condition").group(1))
+    if sorted(avi_lits) != sorted(AVI_TYPES):
         raise TieBroken(f"srcfacts: riff_io.rs AVIX copy condition changed: {avi_lits}")
+    if "z == cai_seg_cnt + 1" not in j or "if seg.len() == 2" not in j:
+        raise TieBroken("srcfacts: jpeg_io.rs continuation rule (z == cai_seg_cnt + 1) or the parameterless-marker offset rule changed")
     v = ("(* generated from sdk/src/asset_handlers/{jpeg,png,gif,riff}_io.rs on every run — do not edit *)\n"
          "From Coq Require Import NArith List.\nImport ListNotations.\nOpen Scope N_scope.\n"
          f"Definition F_MAX_JPEG_MARKER_SIZE : N := {maxseg}.\n"
@@ -870,7 +877,7 @@ def execute(ctx, prop, cases, with_model=True):
     d = dump_dir(prop)
     hc = [harness_case(c, d if ("fixture" in c["asset"] or c.get("dump")) else None) for c in cases]
     impl = common.run_harness(prop.lower(), hc, timeout=2400)
-    n = compare_with_model(ctx, cases, impl, prop, limit=(300 if ctx.quick() else None)) if with_model else 0
+    n = compare_with_model(ctx, cases, impl, prop, limit=(200 if ctx.quick() else None)) if with_model else 0
     return impl, n
 
 
